@@ -346,6 +346,12 @@ pub fn damage(rd: &Rendered, op: usize, r: &mut Rng) -> Option<(String, String)>
             let m = pick(r, &c)?;
             let MarkKind::PlainValue { start, end } = m.kind else { unreachable!() };
             let mut s = t.clone();
+            if r.chance(1, 2) {
+                // the anchor exists, but only in an earlier document of the stream
+                s.replace_range(start..end, "*vmon-earlier");
+                let s = format!("&vmon-earlier x\n...\n{s}");
+                return Some((s, format!("plain scalar at byte {start} replaced by an alias whose anchor is defined in an earlier document only")));
+            }
             s.replace_range(start..end, "*zzz-undefined");
             Some((s, format!("plain scalar at byte {start} replaced by an alias with no anchor")))
         }
@@ -355,6 +361,11 @@ pub fn damage(rd: &Rendered, op: usize, r: &mut Rng) -> Option<(String, String)>
             let MarkKind::PlainValue { start, .. } = m.kind else { unreachable!() };
             let mut s = t.clone();
             s.insert_str(start, "!zz!t ");
+            if r.chance(1, 2) {
+                // the handle is declared, but only for an earlier document of the stream
+                let s = format!("%TAG !zz! tag:zz,1:\n--- !zz!t x\n...\n{s}");
+                return Some((s, format!("named tag handle inserted at byte {start}, declared for an earlier document only")));
+            }
             Some((s, format!("undeclared named tag handle inserted at byte {start}")))
         }
         11 => {
